@@ -10,6 +10,7 @@
 -/
 import GoNeat.Proofs.EpochRegistry
 import GoNeat.Proofs.ScalarInt
+import GoNeat.Model.LegacyGenome
 
 set_option linter.unusedSectionVars false
 
@@ -130,17 +131,19 @@ theorem mate_consistent (reg : Reg W) (gs : List (Genome W)) (hinv : Inv reg gs)
 
 /-! ### C03: the constructors establish the invariant (counters past the start genomes) -/
 
-/-- **C03 (spawn).** `NewPopulation`/`spawn` from a start genome whose genes and nodes are in ascending order and which is
-    consistent in itself (both follow from well-formedness) yields a population in the C03 state `PopC03 [g] p`: `Inv` for
-    its registry (`nextInn` = number of the last gene, `nextNode` = last node id + 1, no records) and the history `[g]`,
-    and every member's bindings are the start genome's. -/
+/-- **C03 (spawn).** `NewPopulation`/`spawn` from ANY start genome that is consistent in itself (no number bound to two links,
+    no node id with two roles - necessary: otherwise the property is false before anything runs), with its genes and nodes
+    listed in any order, yields a population in the C03 state `PopC03 [g] p`: `Inv` for its registry (`nextInn` = the
+    LARGEST innovation number of the genome, `nextNode` = largest node id + 1, no records) and the history `[g]`, and every
+    member's bindings are the start genome's.  (Before fix 48b1f99 the counters came from the last listed gene / node and
+    this needed the genome to be in ascending order: `C03_counterexample`.) -/
 theorem spawn_inv (o : EpochOpts W) (g : Genome W) (rs rs' : List Nat) (p : Pop W) (h : spawn o g rs = .ok (p, rs'))
-    (hasc : Ascending g) (hc : ConsistentGenes [g]) (hr : ConsistentRoles [g]) : PopC03 [g] p :=
-  spawn_popC03 o g rs rs' p h hasc hc hr
+    (hc : ConsistentGenes [g]) (hr : ConsistentRoles [g]) : PopC03 [g] p :=
+  spawn_popC03 o g rs rs' p h hc hr
 
-/-- **C03 (ReadPopulation counters).** Reading consistent genomes (each with a node and a gene, in ascending order) leaves
-    the counters `(nextNodeId, nextInnovNum) = readCounters gs (0,0)` with the invariant for the genomes read. -/
-theorem read_counters_inv (gs : List (Genome W)) (hok : ∀ g ∈ gs, g.nodes ≠ [] ∧ g.genes ≠ [] ∧ Ascending g)
+/-- **C03 (ReadPopulation counters).** Reading consistent genomes (each with a node and a gene - else the real reader
+    fails -, listed in any order) leaves the counters `(nextNodeId, nextInnovNum) = readCounters gs (0,0)` with the invariant for the genomes read. -/
+theorem read_counters_inv (gs : List (Genome W)) (hok : ∀ g ∈ gs, g.nodes ≠ [] ∧ g.genes ≠ [])
     (hc : ConsistentGenes gs) (hr : ConsistentRoles gs) :
     Inv ({ records := [], nextInn := (readCounters gs (0, 0)).2, nextNode := (readCounters gs (0, 0)).1 } : Reg W) gs :=
   inv_of_counters gs _ _ hc hr (fun g hg => (readCounters_above gs (0, 0) hok g hg).2)
@@ -265,7 +268,34 @@ example : PopC03 [tiny] pop0 := by
   · exact GenomeIn.of_mem List.mem_cons_self
   · exact AllB.same (GenomeIn.of_mem (H := [tiny]) List.mem_cons_self) ⟨rfl, rfl⟩
 
-/-- the counter initialisations on concrete genomes -/
+/-! ### the repaired defect (fix 48b1f99): the pre-fix accessors looked at the LAST listed gene / node only -/
+
+/-- xorstartgenes with the gene numbered 3 listed first (accepted by the plain reader and by `Genome.verify`) -/
+def unsortedStart : Genome Int :=
+  { id := 1, traits := [⟨1, []⟩],
+    nodes := [⟨1, Kind.bias, 4, none⟩, ⟨2, Kind.input, 4, none⟩, ⟨3, Kind.input, 4, none⟩, ⟨4, Kind.output, 4, none⟩],
+    genes := [⟨3, 3, 4, false, 0, 0, true, none⟩, ⟨1, 1, 4, false, 0, 0, true, none⟩, ⟨2, 2, 4, false, 0, 0, true, none⟩] }
+
+/-- **counterexample against the pre-fix code.** For the out-of-order start genome the old `getNextGeneInnovNum` returned 3,
+    so `spawn` set `nextInnovNum` to 2 although the genome holds innovation number 3: `CounterAbove` fails and the next
+    number issued (3) is bound to a second link (replayed on the real code: after one epoch number 3 denoted 3→4 and 4→4).
+    The repaired accessor returns 4 and the invariant holds. -/
+theorem C03_counterexample :
+    Legacy.nextGeneInnov unsortedStart = .ok 3 ∧
+    ¬ CounterAbove ({ records := [], nextInn := 3 - 1, nextNode := 4 + 1 } : Reg Int) [unsortedStart] ∧
+    unsortedStart.nextGeneInnov = .ok 4 ∧ unsortedStart.lastNodeId = .ok 4 ∧
+    Inv ({ records := [], nextInn := 4 - 1, nextNode := 4 + 1 } : Reg Int) [unsortedStart] ∧
+    ConsistentGenes [unsortedStart] ∧ ConsistentRoles [unsortedStart] ∧ ¬ Ascending unsortedStart :=
+  ⟨rfl, by decide, rfl, rfl, by decide, by decide, by decide, by decide⟩
+
+/-- the same for node ids: a node list with the largest id not last -/
+theorem C03_counterexample_nodes :
+    Legacy.lastNodeId ({ unsortedStart with nodes := unsortedStart.nodes.reverse } : Genome Int) = .ok 1 ∧
+    ({ unsortedStart with nodes := unsortedStart.nodes.reverse } : Genome Int).lastNodeId = .ok 4 := ⟨rfl, rfl⟩
+
+/-- the counter initialisations on concrete genomes (in any order) -/
+example : readCounters [unsortedStart, tiny] (0, 0) = (5, 4) := by decide
+
 example : readCounters [tiny, big] (0, 0) = (17, 16) ∧ randomCounters 3 1 2 = (7, 37) := by decide
 example : RandShape 3 1 2 tiny := by decide
 
